@@ -457,3 +457,51 @@ def ring_chord_spec(g, menu='small'):
     g.shuffle(order)
     nts = {n: nts[n] for n in order}
     return {'domains': domains, 'terms': terms, 'nts': nts, 'start': g.choice(names), 'rules': rules}
+
+
+def add_neq_terminal(spec, g, menu='small'):
+    """a binary terminal stored as a diagonal pattern with a NON-ZERO default (an inequality / penalty factor: one value
+    everywhere off the diagonal, stored values on it), used in a random rule.  Such an operand has to be normalised to
+    the semiring's zero default inside einsum."""
+    labs = sorted(spec['domains'])
+    nl = g.choice(labs)
+    sz = dom_size(spec['domains'][nl])
+    if sz < 2:
+        return spec
+    off = 1.0 if menu == 'unit' else g.choice([1.0, 0.5, round(0.1 + 0.4 * g.random(), 3)])
+    diag = [0.0 if (menu == 'unit' or g.random() < 0.6) else round(0.3 * g.random(), 3) for _ in range(sz)]
+    name = 'neq_' + nl
+    dense = [[diag[i] if i == j else off for j in range(sz)] for i in range(sz)]
+    spec['terms'][name] = {'type': [nl, nl], 'weights': dense, 'pattern': {'physical': diag, 'vaxes': [0, 0], 'default': off}}
+    rules = [r for r in spec['rules'] if sum(1 for v in r['nodes'] if v['label'] == nl) >= 1]
+    if not rules:
+        return spec
+    r = g.choice(rules)
+    idx = [i for i, v in enumerate(r['nodes']) if v['label'] == nl]
+    if len(idx) < 2:
+        r['nodes'].append({'label': nl, 'id': None})
+        idx.append(len(r['nodes']) - 1)
+    a, b = g.sample(idx, 2)
+    r['edges'].append({'label': name, 'att': [a, b], 'id': None})
+    return spec
+
+
+def multi_scc_spec(g):
+    """several independent non-linearly recursive components  X_i -> a_i X_i X_i | b_i  under one start rule S -> X_1 ... X_k:
+    every component is solved by its own run of the iterative method, each with the caller's iteration budget"""
+    k = g.randrange(3, 7)
+    names = ['X%d' % i for i in range(k)]
+    nts = {'S': {'type': []}}
+    terms = {}
+    rules = [{'lhs': 'S', 'nodes': [], 'ext': [], 'edges': [{'label': n, 'att': [], 'id': None} for n in names]}]
+    for i, n in enumerate(names):
+        nts[n] = {'type': []}
+        a = round(0.1 + 0.32 * g.random(), 3)
+        b = round(0.3 + 0.6 * g.random(), 3) if g.random() < 0.5 else round(1.0 - a, 3)
+        terms['a%d' % i] = {'type': [], 'weights': a}
+        terms['b%d' % i] = {'type': [], 'weights': b}
+        rules.append({'lhs': n, 'nodes': [], 'ext': [], 'edges': [{'label': 'a%d' % i, 'att': [], 'id': None},
+                                                                 {'label': n, 'att': [], 'id': None}, {'label': n, 'att': [], 'id': None}]})
+        rules.append({'lhs': n, 'nodes': [], 'ext': [], 'edges': [{'label': 'b%d' % i, 'att': [], 'id': None}]})
+    g.shuffle(rules)
+    return {'domains': {'A': {'kind': 'range', 'size': 2}}, 'terms': terms, 'nts': nts, 'start': 'S', 'rules': rules}
